@@ -4,11 +4,10 @@ import RomeaModel.Derivatives
 open Romea Romea.Proto Romea.Pose Romea.Deriv
 
 /-! Driver for C12: `SmartRotation3D` derivative matrices, `dRTdAngles`, the pose covariance of
-    `operator*(Affine3d, Pose3D)` (as written and with the true Jacobian), the least-squares estimate
-    covariance — the model of `RomeaModel/Derivatives.lean` at `Float` (binary64).
+    `operator*(Affine3d, Pose3D)`, the least-squares estimate covariance — the model of `RomeaModel/Derivatives.lean` at `Float` (binary64).
 
     Where the harness prints finite differences of the implementation's own maps, this driver prints the
-    model's "true derivative" definitions (`trueDerivs`, `jacobianTrue`). -/
+    model's "true derivative" definitions (`trueDerivs`) resp. the model's pose Jacobian. -/
 
 def parseFloats? (l : List String) : Option (Array Float) := (parseAll? parseF64? l).map List.toArray
 
@@ -79,9 +78,8 @@ def step (st : Unit) (toks : List String) : Unit × String :=
       | "pose.mulcov", 54 =>
         let lin := matOf a 0 3 3; let tr := vecOf a 9 3; let pos := vecOf a 12 3; let ori := vecOf a 15 3
         let cov := matOf a 18 6 6
-        let (p, o, c) := poseMulCode (fun l => l) lin tr pos ori cov
-        let (_, _, ct, jt) := poseMulTrue (fun l => l) lin tr pos ori cov
-        (st, unwords (fmtVec p.get ++ fmtVec o.get ++ ["|"] ++ fmtMat c.get ++ ["|"] ++ fmtMat ct.get ++ ["|"] ++ fmtMat jt.get))
+        let (p, o, c, j) := poseMul (fun l => l) lin tr pos ori cov
+        (st, unwords (fmtVec p.get ++ fmtVec o.get ++ ["|"] ++ fmtMat c.get ++ ["|"] ++ fmtMat j.get))
       | _, _ => (st, "bad-op")
   | _ => (st, "bad-op")
 
